@@ -28,7 +28,7 @@ PROBES = {
             "trust:down-reset", "GN", "group-param", "float32", "scripted", "ctor-defaults", "zero-residual-start", "kernel-list-with-None", "trial-loss=+inf", "strategy-reused-by-new-optimizer", "input-form:dict", "input-form:list", "input-form:single"],
     "C07": ["lm:first-trial", "lm:trial>=2", "gn", "weights:RR", "weights:NRR", "weights:full", "weights:refreshed-in-place", "weights:per-call-alternating", "kernel", "triggs",
             "clamp-min-bites", "clamp-max-bites", "frozen-param", "group-param", "vectorize-off", "two-residuals",
-            "unused-columns", "ctor-defaults", "kernel-list-with-None", "input-form:dict", "input-form:list", "input-form:single"],
+            "unused-columns", "ctor-defaults", "kernel-list-with-None", "data-refreshed-between-calls", "rotation-vector>pi", "input-form:dict", "input-form:list", "input-form:single"],
 }
 TS = float(os.environ.get("PPSIM_TOLSCALE", "1"))
 EXC = {"RuntimeError": RuntimeError, "ValueError": ValueError, "AssertionError": AssertionError,
@@ -51,11 +51,11 @@ def generate(seed, tier, prop="C08"):
         st = {"kind": sk, "damping": rng.loguniform(r, 1e-9, 1e3)}
     elif sk == "Adaptive":
         st = {"kind": sk, "damping": rng.loguniform(r, 1e-9, 1e3), "high": r.choice([0.5, 0.75, 0.9]),
-              "low": r.choice([1e-3, 0.1, 0.25]), "up": r.choice([2.0, 3.0, 10.0]), "down": r.choice([0.5, 0.1, 0.9]),
+              "low": r.choice([1e-3, 0.1, 0.25, 0.95]), "up": r.choice([2.0, 3.0, 10.0]), "down": r.choice([0.5, 0.1, 0.9]),
               "min": r.choice([1e-6, 1e-3, 1e-9]), "max": r.choice([1e16, 1e2, 1.0])}
     else:
         st = {"kind": sk, "radius": rng.loguniform(r, 1e-3, 1e9), "high": r.choice([0.5, 0.75, 0.9]),
-              "low": r.choice([1e-3, 0.1, 0.25]), "up": r.choice([2.0, 3.0, 10.0]), "down": r.choice([0.5, 0.1, 0.9]),
+              "low": r.choice([1e-3, 0.1, 0.25, 0.95]), "up": r.choice([2.0, 3.0, 10.0]), "down": r.choice([0.5, 0.1, 0.9]),
               "factor": r.choice([0.5, 0.1, 0.9]), "min": r.choice([1e-6, 1e-3, 1e-9]), "max": r.choice([1e16, 1e2, 1e6])}
     nres = len(spec["residuals"])
     kern = None
@@ -78,6 +78,7 @@ def generate(seed, tier, prop="C08"):
                       r.choice(["none", "none", "RR"]) if not scripted else "none",
            "weight_at": r.choice(["ctor", "step", "alternate"]), "reweight": r.random() < 0.3, "vectorize": r.random() < 0.8,
            "input_form": r.choice(["tuple", "tuple", "list", "dict", "single"]), "ctor_defaults": r.random() < 0.2, "rebuild": r.random() < 0.15,
+           "refresh_data": prop == "C07" and r.random() < 0.25,
            "dtype": "f64" if (prop == "C07" or r.random() < 0.6) else "f32",
            "target": (not scripted) and r.random() < 0.3, "spec": spec}
     if cfg["max"] < cfg["min"]:
@@ -494,6 +495,18 @@ def execute(plan, prop, out, tr):
             for wt in (weight if isinstance(weight, (list, tuple)) else [weight]):
                 wt.mul_(1.0 + 0.5 * ((rng.H(s, "rew", ci) % 7) - 2))
             out.probe("weights:refreshed-in-place")
+        if c.get("refresh_data") and ci > 0 and not scripted:
+            # another batch of data for this call (same shapes): every call is the documented solve for ITS data
+            data = om.make_data(spec, rng.H(s, "data", ci), dtype)
+            if form == "list":
+                step_input = list(data)
+            elif form == "dict" and len(data) >= 1:
+                step_input = {"d%d" % k_: t_ for k_, t_ in enumerate(data)}
+            elif form == "single" and len(data) == 1:
+                step_input = data[0]
+            else:
+                step_input = data
+            out.probe("data-refreshed-between-calls")
         call_w = weight
         if alt_w is not None:
             step_w = alt_w if ci % 2 == 0 else None
@@ -669,6 +682,9 @@ def execute(plan, prop, out, tr):
                 out.nontrivial = True
         # =============================== C07 ===============================
         else:
+            if n_solves == 0:
+                raise Violation("C07.no-trial", "%s call %d returned without handing any linear system to the solver" %
+                                (c["opt"], ci), ci, "no-trial")
             _c07_call(c, model, kinds, data, targets, call_w, opt, srec, trec, p_s, p_e, damp0, out, ci, plan, tr)
             out.nontrivial = True
             out.sigs.add("%s|%s|%s|%s|%s|n%d" % (c["opt"], c["weights"], c["corrector"], c["solver"],
